@@ -20,6 +20,6 @@ blk = '<!-- OBLIGATIONS-BEGIN -->\n' + '\n'.join(out) + '\n<!-- OBLIGATIONS-END 
 if '<!-- OBLIGATIONS-BEGIN -->' in s:
     s = re.sub(r'<!-- OBLIGATIONS-BEGIN -->.*<!-- OBLIGATIONS-END -->', lambda m_: blk, s, flags=re.S)
 else:
-    s += '\n### 9.5 Obligations as built (generated from rules/*.py)\n\nThe tables of §4 were the plan; the lists below are what the committed rule tables evaluate.\n\n' + blk + '\n'
+    s += '\n### 9.6 Obligations as built (generated from rules/*.py)\n\nThe tables of §4 were the plan; the lists below are what the committed rule tables evaluate.\n\n' + blk + '\n'
 open(os.path.join(V, 'DESIGN.md'), 'w').write(s)
 print('ok')
